@@ -276,6 +276,35 @@ func generatedBatchModels(r *rand.Rand) []*batchModel {
 			nd("Squeeze", []string{"b", "ax2"}, []string{"c"}), nd("Concat", []string{"c", "x"}, []string{"d"}, aI("axis", 1)),
 			nd("Reshape", []string{"d", "shp"}, []string{"e"}), nd("Slice", []string{"e", "st", "en", "axs"}, []string{"y"})},
 			map[string]tensor.Tensor{"ax1": i64(1), "ax2": i64(2), "shp": i64(0, 2, 4), "st": i64(1), "en": i64(3), "axs": i64(2)}, []string{"x"}, []int{2}, []string{"y"})})
+	// 8b. batch-preserving transposes of rank 4 and 5 that swap two neighbouring inner axes (attention heads)
+	add(&batchModel{name: "transpose-heads-rank4", inputs: []string{"x"}, inAxis: []int{0}, outputs: []string{"y"}, outAxis: []int{0},
+		mk:    one(func(n int) []int { return []int{n, 3, 2, 4} }, 1),
+		bytes: buildModel([]*onnx.NodeProto{nd("Transpose", []string{"x"}, []string{"y"}, aIs("perm", 0, 2, 1, 3))}, nil, []string{"x"}, []int{4}, []string{"y"})})
+	add(&batchModel{name: "transpose-rank5-matmul", inputs: []string{"x"}, inAxis: []int{0}, outputs: []string{"y"}, outAxis: []int{0},
+		mk: one(func(n int) []int { return []int{n, 2, 3, 2, 2} }, 1),
+		bytes: buildModel([]*onnx.NodeProto{nd("Transpose", []string{"x"}, []string{"a"}, aIs("perm", 0, 1, 3, 2, 4)), nd("MatMul", []string{"a", "w"}, []string{"y"})},
+			map[string]tensor.Tensor{"w": f32T(r, 1, 2, 3)}, []string{"x"}, []int{5}, []string{"y"})})
+	add(&batchModel{name: "transpose-last-two-rank4", inputs: []string{"x"}, inAxis: []int{0}, outputs: []string{"y"}, outAxis: []int{0},
+		mk:    one(func(n int) []int { return []int{n, 2, 3, 4} }, 1),
+		bytes: buildModel([]*onnx.NodeProto{nd("Transpose", []string{"x"}, []string{"y"}, aIs("perm", 0, 1, 3, 2))}, nil, []string{"x"}, []int{4}, []string{"y"})})
+	// 8c. integer and float64 Gemm / 2-D MatMul between Casts (refused today -- then every selection must be
+	// refused; if they are computed, the rows may not mix): weights with fewer and with more columns than rows
+	for _, dtc := range []struct {
+		name string
+		code int64
+		d    tensor.Dtype
+	}{{"int32", 6, tensor.Int32}, {"int64", 7, tensor.Int64}, {"float64", 11, tensor.Float64}} {
+		for _, wshape := range [][2]int{{3, 2}, {2, 3}} {
+			dtc, wshape := dtc, wshape
+			w := mkT(dtc.d, []int{wshape[0], wshape[1]}, []int64{1, -2, 3, 2, -1, 1})
+			for _, op := range []string{"Gemm", "MatMul"} {
+				add(&batchModel{name: fmt.Sprintf("cast-%s-%s-%dx%d", dtc.name, op, wshape[0], wshape[1]), inputs: []string{"x"}, inAxis: []int{0}, outputs: []string{"y"}, outAxis: []int{0}, mayRefuse: true,
+					mk: one(func(n int) []int { return []int{n, wshape[0]} }, 6),
+					bytes: buildModel([]*onnx.NodeProto{nd("Cast", []string{"x"}, []string{"xi"}, aI("to", dtc.code)), nd(op, []string{"xi", "w"}, []string{"yi"}), nd("Cast", []string{"yi"}, []string{"y"}, aI("to", 1))},
+						map[string]tensor.Tensor{"w": w}, []string{"x"}, []int{2}, []string{"y"})})
+			}
+		}
+	}
 	// 9. reductions over a non-batch axis
 	add(&batchModel{name: "reducemax-argmax", inputs: []string{"x"}, inAxis: []int{0}, outputs: []string{"y"}, outAxis: []int{0},
 		mk: one(func(n int) []int { return []int{n, 3, 4} }, 1),
@@ -332,7 +361,7 @@ func genC16(dir, tier string, seed int64) {
 			}})
 	}
 	models = append(models, generatedBatchModels(r)...)
-	res := goOnlyResult{Stream: "C16_batch_vs_rows", Rule: "the loadable sample models (mlp, gru, scaler, ndm) and generated models built from the per-sample operator families (Gemm/MatMul against weights incl. the batched-MatMul path, Conv 1-D/2-D, RNN/GRU/LSTM with given and default states and with a per-sample sequence_lens input (refused today: then every selection of the batch must be refused as well), elementwise chains against broadcast weights, PRelu, Softmax/LogSoftmax over non-batch axes, batch-preserving Unsqueeze/Transpose/Squeeze/Concat/Reshape/Slice/Gather, ReduceMax/Min over non-batch axes, Scaler/LinearRegressor): a batch of N = 1..5 random samples is evaluated; then every sample alone (N = 1), the batch in a random permutation, and a random sub-selection (incl. repeated rows); every output row must agree with the row computed in the other composition within |a-b| <= 1e-5 (1+|a|) (the repository's own delta)", Violations: []string{}, Known: map[string]int{}}
+	res := goOnlyResult{Stream: "C16_batch_vs_rows", Rule: "the loadable sample models (mlp, gru, scaler, ndm) and generated models built from the per-sample operator families (Gemm/MatMul against weights incl. the batched-MatMul path, Conv 1-D/2-D, RNN/GRU/LSTM with given and default states and with a per-sample sequence_lens input (refused today: then every selection of the batch must be refused as well), elementwise chains against broadcast weights, PRelu, Softmax/LogSoftmax over non-batch axes, batch-preserving Unsqueeze/Transpose/Squeeze/Concat/Reshape/Slice/Gather, transposes of rank 4 and 5 that swap two neighbouring inner axes, integer and float64 Gemm / 2-D MatMul between Casts (refused today: then every selection must be refused), ReduceMax/Min over non-batch axes, Scaler/LinearRegressor): a batch of N = 1..5 random samples is evaluated; then every sample alone (N = 1), the batch in a random permutation, and a random sub-selection (incl. repeated rows); every output row must agree with the row computed in the other composition within |a-b| <= 1e-5 (1+|a|) (the repository's own delta)", Violations: []string{}, Known: map[string]int{}}
 	reps := 2
 	if tier == "thorough" {
 		reps = 150
